@@ -18,6 +18,7 @@ import (
 	"github.com/sarchlab/akita/v4/simulation"
 	"github.com/sarchlab/akita/v4/tracing"
 	"github.com/sarchlab/mgpusim/v4/amd/driver"
+	"github.com/sarchlab/mgpusim/v4/amd/insts"
 	"github.com/sarchlab/mgpusim/v4/amd/samples/runner/emusystem"
 	"github.com/sarchlab/mgpusim/v4/amd/samples/runner/timingconfig"
 )
@@ -34,41 +35,47 @@ type Op struct {
 // home[b-1] the GPU buffer b is allocated on; order lists queue numbers: the k-th entry enqueues the next
 // operation of that queue.
 type Scenario struct {
-	Name  string `json:"name"`
-	NG    int    `json:"ng"`
-	NQ    int    `json:"nq"`
-	Gpu   []int  `json:"gpu"`
-	Home  []int  `json:"home"`
-	Len   []int  `json:"len"` // floats per queue (both buffers of a queue have this length)
-	Progs [][]Op `json:"progs"`
-	Order []int  `json:"order"`
-	Drain string `json:"drain"` // seq | par | rev
-	Ctx   []int  `json:"ctx"`   // context (address space) of every queue, 1-based; default: one context
-	Emu   bool   `json:"emu"`   // functional emulation platform instead of the timing platform
+	Name    string `json:"name"`
+	NG      int    `json:"ng"`
+	NQ      int    `json:"nq"`
+	Gpu     []int  `json:"gpu"`
+	Home    []int  `json:"home"`
+	Len     []int  `json:"len"` // floats per queue (both buffers of a queue have this length)
+	Progs   [][]Op `json:"progs"`
+	Order   []int  `json:"order"`
+	Drain   string `json:"drain"`   // seq | par | rev
+	Ctx     []int  `json:"ctx"`     // context (address space) of every queue, 1-based; default: one context
+	Emu     bool   `json:"emu"`     // functional emulation platform instead of the timing platform
+	ShareCO bool   `json:"shareco"` // every D2D launches ONE shared code object (EnqueueLaunchKernel) instead of loading a fresh one per call
 }
 
 type opRef struct{ q, i int }
 
 type recorder struct {
-	mu      sync.Mutex
-	events  []map[string]interface{}
-	lo, hi  map[opRef]int64 // ids of the commands of an operation lie in (lo, hi)
-	ops     []opRef
-	cmdOp   map[string]opRef  // command id -> operation
-	cmdKind map[string]string // command id -> type
-	nCmd    map[opRef]int     // commands of the operation (known after enqueue)
-	started map[opRef]int
-	ended   map[opRef]int
-	reqOp   map[string]opRef // request task id -> operation
-	reqWhat map[string]string
-	reqGPU  map[string]int
-	dataOut map[string]int // command id -> outstanding data requests
-	gpuOf   map[sim.RemotePort]int
-	doneIdx map[opRef]int // index of the OpDone event (obs filled in later)
-	opened  map[opRef]bool
-	emu     bool
-	emuCopy map[int]int
-	progs   [][]Op
+	mu       sync.Mutex
+	events   []map[string]interface{}
+	lo, hi   map[opRef]int64 // ids of the commands of an operation lie in (lo, hi)
+	ops      []opRef
+	cmdOp    map[string]opRef  // command id -> operation
+	cmdKind  map[string]string // command id -> type
+	nCmd     map[opRef]int     // commands of the operation (known after enqueue)
+	started  map[opRef]int
+	ended    map[opRef]int
+	reqOp    map[string]opRef // request task id -> operation
+	reqWhat  map[string]string
+	reqGPU   map[string]int
+	dataOut  map[string]int // command id -> outstanding data requests
+	gpuOf    map[sim.RemotePort]int
+	doneIdx  map[opRef]int // index of the OpDone event (obs filled in later)
+	opened   map[opRef]bool
+	emu      bool
+	emuCopy  map[int]int
+	codeOf   map[opRef]opRef // launch -> operation whose first command uploads the code object it runs
+	uploader map[opRef]bool  // the operation's first command is a code upload
+	firstCmd map[opRef]string
+	resident map[opRef]bool
+	early    bool // a kernel was launched before its code was uploaded: the run is abandoned
+	progs    [][]Op
 }
 
 func (r *recorder) emit(e map[string]interface{}) int {
@@ -130,6 +137,14 @@ func (r *recorder) StartTask(task tracing.Task) {
 		r.cmdKind[task.ID] = task.What
 		r.started[o]++
 		r.open(o)
+		if r.uploader[o] {
+			if r.started[o] == 1 {
+				r.firstCmd[o] = task.ID
+			} else if r.emu && !r.resident[o] {
+				r.resident[o] = true
+				r.emit(map[string]interface{}{"e": "CodeCopied", "q": o.q, "i": o.i})
+			}
+		}
 	case "req_out":
 		o, ok := r.find(task.ParentID)
 		if !ok {
@@ -150,7 +165,11 @@ func (r *recorder) StartTask(task tracing.Task) {
 			r.reqGPU[task.ID] = g
 			r.emit(map[string]interface{}{"e": "Flush", "q": o.q, "i": o.i, "g": g})
 		case "*protocol.LaunchKernelReq":
-			r.emit(map[string]interface{}{"e": "KLaunch", "q": o.q, "i": o.i})
+			c := r.codeOf[o]
+			r.emit(map[string]interface{}{"e": "KLaunch", "q": o.q, "i": o.i, "cq": c.q, "ci": c.i})
+			if !r.resident[c] {
+				r.early = true
+			}
 		case "*protocol.MemCopyH2DReq", "*protocol.MemCopyD2HReq":
 			if op.K != "d2d" {
 				r.dataOut[task.ParentID]++
@@ -194,6 +213,10 @@ func (r *recorder) EndTask(task tracing.Task) {
 	if o, ok := r.cmdOp[task.ID]; ok {
 		if _, isCmd := r.cmdKind[task.ID]; !isCmd {
 			return
+		}
+		if r.uploader[o] && r.firstCmd[o] == task.ID && !r.resident[o] {
+			r.resident[o] = true
+			r.emit(map[string]interface{}{"e": "CodeCopied", "q": o.q, "i": o.i})
 		}
 		r.ended[o]++
 		if r.ended[o] == r.nCmd[o] && !r.emu {
@@ -249,7 +272,8 @@ func runScenario(sc Scenario, out *json.Encoder, nqmax int) (status string) {
 	rec := &recorder{lo: map[opRef]int64{}, hi: map[opRef]int64{}, cmdOp: map[string]opRef{}, cmdKind: map[string]string{},
 		nCmd: map[opRef]int{}, started: map[opRef]int{}, ended: map[opRef]int{}, reqOp: map[string]opRef{},
 		reqWhat: map[string]string{}, reqGPU: map[string]int{}, dataOut: map[string]int{}, gpuOf: map[sim.RemotePort]int{},
-		doneIdx: map[opRef]int{}, opened: map[opRef]bool{}, progs: sc.Progs, emu: sc.Emu, emuCopy: map[int]int{}}
+		doneIdx: map[opRef]int{}, opened: map[opRef]bool{}, progs: sc.Progs, emu: sc.Emu, emuCopy: map[int]int{}, codeOf: map[opRef]opRef{}, uploader: map[opRef]bool{},
+		firstCmd: map[opRef]string{}, resident: map[opRef]bool{}}
 	for i, p := range d.GPUs {
 		rec.gpuOf[p.AsRemote()] = i + 1
 	}
@@ -300,6 +324,15 @@ func runScenario(sc Scenario, out *json.Encoder, nqmax int) (status string) {
 	rec.emit(map[string]interface{}{"e": "Reset", "name": sc.Name, "progs": padded, "ctx": cx})
 	rec.mu.Unlock()
 
+	var sharedCO *insts.KernelCodeObject
+	if sc.ShareCO {
+		raw, err := os.ReadFile(*hsacoPath)
+		if err != nil {
+			panic(err)
+		}
+		sharedCO = insts.LoadKernelCodeObjectFromBytes(raw, "copyKernel")
+	}
+	lastUpload := map[int]opRef{}
 	next := make([]int, sc.NQ+1)
 	host := map[opRef][]float32{}
 	for _, q := range sc.Order {
@@ -324,13 +357,35 @@ func runScenario(sc Scenario, out *json.Encoder, nqmax int) (status string) {
 			host[o] = make([]float32, n)
 			d.EnqueueMemCopyD2H(queues[q], host[o], bufs[op.B])
 		case "d2d":
-			d.EnqueueMemCopyD2D(queues[q], bufs[op.Dst], bufs[op.Src], n*4)
+			if sharedCO != nil {
+				// what EnqueueMemCopyD2D does, with one code object for all launches of the run
+				grid := [3]uint32{uint32(n), 1, 1}
+				d.EnqueueLaunchKernel(queues[q], sharedCO, grid, [3]uint16{64, 1, 1},
+					&driver.KernelMemCopyArgs{Src: bufs[op.Src], Dst: bufs[op.Dst], N: int64(n * 4)})
+			} else {
+				d.EnqueueMemCopyD2D(queues[q], bufs[op.Dst], bufs[op.Src], n*4)
+			}
 		default:
 			panic("unknown op " + op.K)
 		}
 		rec.mu.Lock()
 		rec.hi[o] = gen()
 		rec.nCmd[o] = queues[q].NumCommand() - before
+		if op.K == "d2d" {
+			// a launch is 2 staging copies + the launch command, preceded by the upload of the code object when the
+			// driver has no device copy of it for this process yet
+			c := 1
+			if len(sc.Ctx) >= q {
+				c = sc.Ctx[q-1]
+			}
+			if rec.nCmd[o] == 4 {
+				rec.uploader[o] = true
+				rec.codeOf[o] = o
+				lastUpload[c] = o
+			} else {
+				rec.codeOf[o] = lastUpload[c]
+			}
+		}
 		rec.mu.Unlock()
 	}
 
@@ -370,10 +425,26 @@ func runScenario(sc Scenario, out *json.Encoder, nqmax int) (status string) {
 		close(done)
 	}()
 	status = "ok"
-	select {
-	case <-done:
-	case <-time.After(600 * time.Second):
-		status = "timeout"
+	deadline := time.After(time.Duration(*limit) * time.Second)
+wait:
+	for {
+		select {
+		case <-done:
+			break wait
+		case <-deadline:
+			status = "timeout"
+			break wait
+		case <-time.After(20 * time.Millisecond):
+			rec.mu.Lock()
+			e := rec.early
+			rec.mu.Unlock()
+			if e {
+				// the kernel runs whatever the memory at its code address holds: nothing after this point says
+				// anything more about the driver; the process exits after writing the trace
+				status = "abandoned"
+				break wait
+			}
+		}
 	}
 	if status == "ok" {
 		waitIdle(d)
@@ -397,6 +468,8 @@ func runScenario(sc Scenario, out *json.Encoder, nqmax int) (status string) {
 			}
 		}
 		rec.emit(map[string]interface{}{"e": "End"})
+	} else if status == "abandoned" {
+		rec.emit(map[string]interface{}{"e": "Abandoned"})
 	} else {
 		rec.emit(map[string]interface{}{"e": "Timeout"})
 	}
@@ -412,6 +485,9 @@ func runScenario(sc Scenario, out *json.Encoder, nqmax int) (status string) {
 	}
 	return status
 }
+
+var limit = flag.Int("limit", 600, "wall-clock limit of one run in seconds")
+var hsacoPath = flag.String("hsaco", "/repo/amd/driver/memcopy.hsaco", "the driver's copy kernel (for scenarios that share one code object)")
 
 func main() {
 	scen := flag.String("scen", "", "scenario file (json list)")
@@ -431,10 +507,14 @@ func main() {
 		panic(err)
 	}
 	enc := json.NewEncoder(f)
-	stats := map[string]int{"scenarios": 0, "timeouts": 0}
+	stats := map[string]int{"scenarios": 0, "timeouts": 0, "abandoned": 0}
 	for _, sc := range scs {
 		st := runScenario(sc, enc, *nqmax)
 		stats["scenarios"]++
+		if st == "abandoned" {
+			stats["abandoned"]++
+			break // the abandoned simulation still runs in this process
+		}
 		if st != "ok" {
 			stats["timeouts"]++
 			break
